@@ -11,6 +11,14 @@ import (
 // arbitrary (forked) order instead of the HRW order, which depends on hashes.
 var verifShardOrder bool
 
+// verifOrderOnce, when set together with verifShardOrder, draws the permutation
+// once per run and reuses it for every call (quick tiers); otherwise every call
+// draws its own order.
+var (
+	verifOrderOnce bool
+	verifOrderPerm []int
+)
+
 func (e *StorageEngine) sortedShards(id oid.ID) []shardWrapper {
 	if !verifShardOrder {
 		return e.sortedShards__real(id)
@@ -21,6 +29,19 @@ func (e *StorageEngine) sortedShards(id oid.ID) []shardWrapper {
 		byIdx[sh.Shard.VerifIndex()] = sh
 	}
 	res := make([]shardWrapper, 0, len(byIdx))
+	if verifOrderOnce && len(verifOrderPerm) == len(byIdx) {
+		for _, i := range verifOrderPerm {
+			sh := byIdx[i]
+			sh.shardIface = sh.Shard
+			res = append(res, sh)
+		}
+		return res
+	}
+	var perm []int
+	idx := make([]int, len(byIdx))
+	for i := range idx {
+		idx[i] = i
+	}
 	for len(byIdx) > 0 {
 		c := 0
 		if len(byIdx) > 1 {
@@ -29,7 +50,12 @@ func (e *StorageEngine) sortedShards(id oid.ID) []shardWrapper {
 		sh := byIdx[c]
 		sh.shardIface = sh.Shard
 		res = append(res, sh)
+		perm = append(perm, idx[c])
 		byIdx = append(byIdx[:c:c], byIdx[c+1:]...)
+		idx = append(idx[:c:c], idx[c+1:]...)
+	}
+	if verifOrderOnce {
+		verifOrderPerm = perm
 	}
 	return res
 }
